@@ -5,7 +5,7 @@ form) each time a reached #include resolves to nothing; an unknown-directive(fil
 spelling) per textual occurrence (not for #line/#warning/#error, not for the null directive) in
 every parsed file; by construction of the input: missing-file per database entry,
 unknown-compiler and unknown-arguments per command.
-E: a two-platform, multi-TU code base with 13 fault sites (quote / angle includes missing, in
+E: a two-platform, multi-TU code base with 14 fault sites (quote / angle includes missing, in
    reached and unreached branches, in a header included by two TUs, in a header included twice by
    one TU, the same missing spelling at two lines, unknown directives reached / unreached / in a
    file nobody compiles, harmless #line/#error/#warning, a database entry for a missing file, an
@@ -31,7 +31,7 @@ from ..ref import cpp
 ID = "C18"
 FAULTS = ["quote-missing", "angle-missing", "unreached-missing", "missing-in-shared-header", "missing-in-header-included-twice", "same-missing-twice",
           "unknown-directive-reached", "unknown-directive-unreached", "harmless-directives", "db-missing-file", "unknown-compiler", "unknown-flag",
-          "unknown-directive-in-uncompiled-file"]
+          "unknown-directive-in-uncompiled-file", "angle-resolvable-for-one-tu-only"]
 
 
 def build(root, faults):
@@ -51,8 +51,10 @@ def build(root, faults):
         main.append("#foo bar")
     if "harmless-directives" in F:
         main += ["#line 3", "#warning hi", "#", "#ifdef NEVER", "#error x", "#endif"]
+    if "angle-resolvable-for-one-tu-only" in F:
+        main.append("#include <only1.h>")
     main += ["#ifdef P2", "int p2;", "#endif", "int tail;"]
-    other = ['#include "sub/k.h"', "int o;"]
+    other = ['#include "sub/k.h"', "int o;"] + (["#include <only1.h>"] if "angle-resolvable-for-one-tu-only" in F else [])
     if "unknown-directive-unreached" in F:
         other += ["#ifdef NEVER", "#include_next <x.h>", "#endif"]
     k = ["int k;"] + (['#include "missing_in_k.h"'] if "missing-in-shared-header" in F else [])
@@ -62,11 +64,14 @@ def build(root, faults):
     shutil.rmtree(root, ignore_errors=True)
     codebase.write_tree(root, files)
     inc = ["-I", os.path.join(root, "inc1")]
-    p1 = [{"file": "src/main.c", "args": inc + (["-fweird"] if "unknown-flag" in F else [])},
+    files_extra = {"incx/only1.h": "int only1;\n"}
+    codebase.write_tree(root, files_extra)
+    incx = ["-I", os.path.join(root, "incx")] if "angle-resolvable-for-one-tu-only" in F else []      # main.c's command only
+    p1 = [{"file": "src/main.c", "args": inc + incx + (["-fweird"] if "unknown-flag" in F else [])},
           {"file": "src/other.c", "args": inc, "compiler": "weirdcc" if "unknown-compiler" in F else "/usr/bin/gcc"}]
     if "db-missing-file" in F:
         p1.append({"file": "src/gone.c", "args": inc})
-    p2 = [{"file": "src/main.c", "args": inc + ["-DP2"]}]
+    p2 = [{"file": "src/main.c", "args": inc + incx + ["-DP2"]}]
     return {"p1": p1, "p2": p2}
 
 
@@ -81,7 +86,7 @@ def model(root, plats, faults):
             if not os.path.exists(tu):
                 continue
             defs = {"P2": "1"} if "-DP2" in c["args"] else {}
-            r = cpp.preprocess(tu, inc, [], defs)
+            r = cpp.preprocess(tu, [c["args"][i + 1] for i, a in enumerate(c["args"]) if a == "-I"], [], defs)
             parsed |= r.parsed_files
             for e in r.events:
                 if e[0] == "missing-include":
@@ -307,7 +312,7 @@ def run(tier):
     rep.coverage.update({
         "states": sinfo["states"], "transitions": sinfo["transitions"], "traces_validated_against_impl": sinfo["transitions"] + n,
         "evaluations": n + sinfo["transitions"], "distinct_nontrivial": sum(r[1] for r in res),
-        "rule": "every subset of <=%d of 13 fault sites%s, each analysed in-process (records of the 'codebasin' logger) and through the codebasin CLI (closing totals vs cbi.log); "
+        "rule": "every subset of <=%d of 14 fault sites%s, each analysed in-process (records of the 'codebasin' logger) and through the codebasin CLI (closing totals vs cbi.log); "
                 "S: every sequence of <=%d include directives over 7 forms on one Platform, state = its include memo" % (kmax, " (3-subsets: a seed-chosen half)" if tier == "quick" else "", 3 if tier == "quick" else 4),
         "fault_sites": FAULTS, "cases": n, "failing_cases": sum(r[2] for r in res), "S": sinfo,
         "samples": [{"faults": cases[20]}, {"faults": cases[-1]}, {"sequence": list(SEQ_DIRS[:3])}],
